@@ -270,6 +270,13 @@ def gen_texts(ctx):
                 if ctx.quick and k % 2 and body[k - 1] not in ":-\n":
                     continue
                 texts.append(body[:k])
+    # column-aligned prose: a long run of blanks (or a line break followed by deep indentation) after each word the parsers and
+    # emitters look for -- the input family on which a backtracking matcher, or a scan that restarts, stops being linear
+    for word in ("defaults", "Defaults", "Defaults to", "default", "Default value", "is", "of", "or", "int", "`", "```", ":"):
+        for pad in (" " * 30, " " * 44, "\n" + " " * 60, "\t" * 40):
+            for tail in ("are used", "to 5", "", "\n"):
+                for head in (":param x: library ", "x : int\n    library ", ""):
+                    texts.append(head + word + pad + tail)
     return list(dict.fromkeys(texts))
 
 
